@@ -90,6 +90,8 @@ type Gen struct {
 	MaxKids  int
 	MaxVals  int
 	NoDigits bool // ASCII literals without digits
+	Indexed  bool // some variable names are an earlier name with an index behind it ("v1[0]"): the shape generated names have
+	names    []string
 }
 
 func NewGen(seed int64) *Gen { return &Gen{r: rand.New(rand.NewSource(seed)), MaxKids: 4, MaxVals: 5} }
@@ -229,9 +231,24 @@ func (g *Gen) asciiStr(maxLen int) string {
 }
 
 func (g *Gen) newVar() string {
+	if g.Indexed && len(g.names) > 0 && g.pick(4) == 0 {
+		cand := fmt.Sprintf("%s[%d]", g.names[g.pick(len(g.names))], g.pick(3))
+		fresh := true
+		for _, n := range g.names {
+			if n == cand {
+				fresh = false
+			}
+		}
+		if fresh {
+			g.names = append(g.names, cand)
+			return cand
+		}
+	}
 	g.varSeq++
 	bases := []string{"v", "x_", "Name", "_q", "t", "fv", "l", "b", "a1"}
-	return fmt.Sprintf("%s%d", bases[g.pick(len(bases))], g.varSeq)
+	n := fmt.Sprintf("%s%d", bases[g.pick(len(bases))], g.varSeq)
+	g.names = append(g.names, n)
+	return n
 }
 
 // leaf returns a random non-list item; with vars=true some values are variables
